@@ -35,7 +35,7 @@ fn check(src: &str) -> Option<(String, String)> {
             match (&got_span, &exp) {
                 (Some(g), Some(e)) if g == e => {}
                 // an all-whitespace line: any empty span inside the line is "that line without surrounding whitespace"
-                (Some(g), None) if g.start == g.end && g.start >= starts[l] && g.end <= end + 1 => {}
+                (Some(g), None) if g.start == g.end && g.start >= starts[l] && g.end <= end => {}
                 _ => return Err(("line_span".into(), format!("line {l}: span {got_span:?}, expected {exp:?} (or an empty span within the line)"))),
             }
             if got_text.as_deref() != Some(trimmed) { return Err(("read_line".into(), format!("line {l}: read_line {got_text:?}, expected {trimmed:?}"))); }
